@@ -234,6 +234,39 @@ def check_guards(F, run, roots):
             run.broken("R14.4", dp, "iteration-cap", where, msg)
 
 
+def nonzero_guard(c):
+    """`|d| > 0`, `0 < |d|`, `|d| != 0` -> True (the branch for a non-vanishing d); `|d| == 0`, `|d| <= 0` -> False; anything else -> None."""
+    if not isinstance(c, sp.core.relational.Relational):
+        return None
+    l, r = c.lhs, c.rhs
+
+    def magnitude(x):
+        # |d| (sympy writes the modulus of re + i·im with real parts as sqrt(re² + im²))
+        return bool(x.free_symbols) and (isinstance(x, sp.Abs) or x.is_nonnegative is True or (x.is_Pow and x.exp == sp.Rational(1, 2)))
+    if r == 0 and magnitude(l):
+        if isinstance(c, (sp.StrictGreaterThan, sp.Ne)):
+            return True
+        if isinstance(c, (sp.Eq, sp.LessThan)):
+            return False
+    if l == 0 and magnitude(r):
+        if isinstance(c, (sp.StrictLessThan, sp.Ne)):
+            return True
+        if isinstance(c, (sp.Eq, sp.GreaterThan)):
+            return False
+    return None
+    if r == 0 and isinstance(l, sp.Abs) and l.free_symbols:
+        if isinstance(c, (sp.StrictGreaterThan, sp.Ne)):
+            return True
+        if isinstance(c, (sp.Eq, sp.LessThan)):
+            return False
+    if l == 0 and isinstance(r, sp.Abs) and r.free_symbols:
+        if isinstance(c, (sp.StrictLessThan, sp.Ne)):
+            return True
+        if isinstance(c, (sp.Eq, sp.GreaterThan)):
+            return False
+    return None
+
+
 class LaguerreStep(vecint.VInterp):
     """One iteration of the Laguerre loop with p, p', p'' at the iterate as free symbols; the locals that hold G = p'/p and the
     square root are re-bound to free complex numbers after their formulas have been recorded (instance table: LAGUERRE_LOCALS)."""
@@ -256,6 +289,10 @@ class LaguerreStep(vecint.VInterp):
 
     def ev_If(self, n):
         c = self.ev(n["c"])
+        nz = nonzero_guard(c)
+        if nz is not None:
+            # the guard against a vanishing denominator (`d.abs() > 0`): for generic G and s the denominator is not zero
+            return self.ev(n["t"]) if nz else (self.ev(n["e"]) if "e" in n else None)
         if "e" in n and isinstance(c, sp.Basic) and c.atoms(sp.Symbol) & set(self.shared["free_parts"]):
             # the sign choice, as an if-expression (value chosen) or as an if-statement (different updates of a local): both branches are evaluated,
             # the alternatives are recorded, and the execution continues with the `then` branch
@@ -355,6 +392,66 @@ def check_make_complex(F, run):
                   sample="make_complex keeps (coefficients, tolerance)")
 
 
+class _OneStep(Exception):
+    def __init__(self, value):
+        self.value = value
+
+
+class FirstStep(RootsInterp):
+    """`roots` executed exactly up to the end of the *first* Laguerre iteration (no abstraction of the loop): the iterate after one step."""
+    def abstract_laguerre(self, n):
+        body = n["body"]
+        written, at = {}, set()
+        for x in walk(body, into_closures=False):
+            if x.get("k") in ("Assign", "AssignOp") and peel(x["l"]).get("k") == "Local":
+                written[peel(x["l"])["id"]] = peel(x["l"])["name"]
+            if x.get("k") == "MCall" and x["name"] in ("evaluate", "evaluate_derivative"):
+                for a in x["args"]:
+                    if peel(a).get("k") == "Local":
+                        at.add(peel(a)["id"])
+        iterate = [i_ for i_ in written if i_ in at]
+        if len(iterate) != 1:
+            raise sym.Unsupported(n, "Laguerre loop: cannot identify the iterate")
+        if n.get("k") == "For":
+            from bsa.hir import pat_binds
+            for i_, nm in pat_binds(n["pat"]):
+                self.env[i_], self.names[i_] = sp.Integer(0), nm
+        try:
+            self.ev(body)
+        except (sym.Break, sym.Continue):
+            pass
+        raise _OneStep(self.env.get(iterate[0]))
+
+
+def check_first_step_defined(F, run, roots):
+    """R14.9 — the property's sparse polynomials x^n − c (n ≥ 3) have p'(0) = p''(0) = 0 at the start point of the Laguerre iteration, where G = 0 and
+    the radicand (n−1)(n·H − G²) = 0: both candidate denominators G ± s vanish.  Executing the first iteration exactly on x^n − c, the new
+    iterate must be a finite number (a step n/0 poisons the iterate with NaN and the call ends in `maximum iterations exceeded`)."""
+    dp = "Polynomial::roots"
+    where = F.loc(roots)
+    c = sp.Symbol("c0", positive=True)
+    for deg in (3, 4):
+        coeffs = [-c] + [sp.Integer(0)] * (deg - 1) + [sp.Integer(1)]
+        inst = "x^%d-c" % deg
+        try:
+            PI.call(F, roots, [PI.poly(coeffs), PI.TOL, sp.Symbol("n_max", integer=True, positive=True)], seconds=60, cls=FirstStep)
+            run.broken("R14.9", dp, inst, where, "the general branch did not reach a Laguerre iteration for %s" % inst)
+            continue
+        except _OneStep as st:
+            z1 = st.value
+        except vecint.IndexPanic as e:
+            run.fail("R14.9", dp, "panic:" + inst, where, "abstract execution panics: %s" % e.why)
+            continue
+        except (sym.Unsupported, vecint.Budget) as e:
+            run.broken("R14.9", dp, inst, where, str(e))
+            continue
+        finite = isinstance(z1, sp.Basic) and not z1.has(sp.zoo, sp.nan, sp.oo, -sp.oo)
+        run.check(finite, "R14.9", dp, "first-step-defined:" + inst, where,
+                  "on %s the first Laguerre iteration from the start point 0 gives the iterate %s: p'(0) = p''(0) = 0 make both denominators G ± s zero and the step n/0 "
+                  "is not a number — the iterate is poisoned and roots() returns Err(maximum iterations exceeded) for a polynomial the property requires Ok for" % (inst, z1),
+                  sample="%s: first iterate %s" % (inst, str(z1)[:60]))
+
+
 SQ = sp.Function("SQRT")
 
 
@@ -424,6 +521,8 @@ def check_laguerre_step_semantic(F, run, roots):
         asked = []
 
         def hook(i_, node, c, choice=choice, asked=asked):
+            if nonzero_guard(c) is not None:
+                return nonzero_guard(c)              # the guard against a vanishing denominator: generic values do not vanish
             if isinstance(c, sp.Basic) and c.has(sp.Abs) and c.has(SQ):
                 asked.append(c)
                 return choice
@@ -696,6 +795,7 @@ def run(F, run, tier):
     check_general_branch(F, run, roots, tier)
     check_guards(F, run, roots)
     check_laguerre_step(F, run, roots)
+    check_first_step_defined(F, run, roots)
     check_complex_domain(F, run, roots)
     check_make_complex(F, run)
     # hermite_zeros builds its start guesses from f32 constants (from_f32(1/3), from_f32(3.3721/∛6)): only the structure of the zero finders is
